@@ -43,12 +43,14 @@ class CHECK(Check):
         def mk(table_keys, sib_keys):
             t1 = [[k, next(vid)] for k in table_keys]
             t4 = [[k, next(vid)] for k in sib_keys]
+            t5 = [[k, next(vid)] for k in (sib_keys if len(sib_keys) == len(table_keys) else list(reversed(KEYS))[: len(table_keys)])]
             return [
                 [None, 1, []],            # framework base: REGISTERS=[], VERSIONS={}
                 [0, 2, t1],               # owner of the table
                 [1, None, None],          # child inheriting everything
                 [1, 3, None],             # child with its own active list
                 [0, 4, t4],               # sibling with its own table
+                [1, 5, t5],               # child of the owner with its OWN table (as many keys as the owner's, other keys)
             ]
 
         # complete enumeration: every table x every request x every target class, one selection
@@ -64,7 +66,7 @@ class CHECK(Check):
         for _ in range(n):
             tk = rng.choice(tables)
             sk = rng.choice(tables)
-            ops = [[rng.choice([1, 2, 3, 4]), rng.choice(REQUESTS)] for _ in range(rng.randint(2, 4))]
+            ops = [[rng.choice([1, 2, 3, 4, 5, 5]), rng.choice(REQUESTS)] for _ in range(rng.randint(2, 4))]
             yield {"fam": rng.choice(FAMILIES), "classes": mk(tk, sk), "ops": ops}
 
     def impl(self, case):
@@ -74,7 +76,7 @@ class CHECK(Check):
             # real component lists: value id v is the list [register class with identifier "V<v>"], so that File.read
             # with the selected list can be observed too
             from .. import reglib
-            ids = set([1, 2, 3, 4] + [v for _, _, t in case["classes"] if t for _, v in t])
+            ids = set([1, 2, 3, 4, 5] + [v for _, _, t in case["classes"] if t for _, v in t])
             for v in ids:
                 rc = reglib.mk_register_class({"ident": "V%d;" % v, "digits": len("V%d;" % v), "fields": [{"k": "lit", "size": 3, "start": 6}]}, v)
                 lst = [rc]
@@ -172,7 +174,7 @@ class CHECK(Check):
         t = obs.get("trace") if isinstance(obs, dict) else None
         if not t:
             return False
-        init = [None] * 5
+        init = [None] * 6
         return any(step != t[0] for step in t) or any(case["classes"][c][2] or case["classes"][1][2] for c, _ in case["ops"])
 
     def classify(self, case):
